@@ -1,0 +1,61 @@
+// Copyright © 2022-2026 Obol Labs Inc. Licensed under the terms of a Business Source License 1.1
+
+//go:build verif
+
+package dkg
+
+import (
+	"context"
+
+	"github.com/coinbase/kryptology/pkg/dkg/frost"
+	"github.com/coinbase/kryptology/pkg/sharing"
+
+	pb "github.com/obolnetwork/charon/dkg/dkgpb/v1"
+	"github.com/obolnetwork/charon/dkg/share"
+)
+
+// This file is only compiled with the "verif" build tag. It exports the unexported FROST entry
+// points of this package (frost.go, frostp2p.go) to the verification harness under Verif*
+// names. It adds no behaviour to any existing function.
+
+// VerifMsgKey is msgKey.
+type VerifMsgKey = msgKey
+
+// VerifFrostTransport is fTransport.
+type VerifFrostTransport = fTransport
+
+// VerifRunFrostParallel is runFrostParallel.
+func VerifRunFrostParallel(ctx context.Context, tp VerifFrostTransport, numValidators, numNodes, threshold, shareIdx uint32, dkgCtx string) ([]share.Share, error) {
+	return runFrostParallel(ctx, tp, numValidators, numNodes, threshold, shareIdx, dkgCtx)
+}
+
+// VerifGetRound2Inputs is getRound2Inputs.
+func VerifGetRound2Inputs(castR1 map[VerifMsgKey]frost.Round1Bcast, p2pR1 map[VerifMsgKey]sharing.ShamirShare, vIdx uint32,
+) (map[uint32]*frost.Round1Bcast, map[uint32]*sharing.ShamirShare) {
+	return getRound2Inputs(castR1, p2pR1, vIdx)
+}
+
+// VerifRound1CastToProto is round1CastToProto.
+func VerifRound1CastToProto(key VerifMsgKey, cast frost.Round1Bcast) *pb.FrostRound1Cast {
+	return round1CastToProto(key, cast)
+}
+
+// VerifShamirShareToProto is shamirShareToProto.
+func VerifShamirShareToProto(key VerifMsgKey, shamir sharing.ShamirShare) *pb.FrostRound1ShamirShare {
+	return shamirShareToProto(key, shamir)
+}
+
+// VerifRound2CastToProto is round2CastToProto.
+func VerifRound2CastToProto(key VerifMsgKey, cast frost.Round2Bcast) *pb.FrostRound2Cast {
+	return round2CastToProto(key, cast)
+}
+
+// VerifMakeRound1Response is makeRound1Response.
+func VerifMakeRound1Response(casts []*pb.FrostRound1Casts, p2ps []*pb.FrostRound1P2P) (map[VerifMsgKey]frost.Round1Bcast, map[VerifMsgKey]sharing.ShamirShare, error) {
+	return makeRound1Response(casts, p2ps)
+}
+
+// VerifMakeRound2Response is makeRound2Response.
+func VerifMakeRound2Response(msgs []*pb.FrostRound2Casts) (map[VerifMsgKey]frost.Round2Bcast, error) {
+	return makeRound2Response(msgs)
+}
